@@ -106,6 +106,14 @@ func (t *testReader) Read(p []byte) (int, error) {
 	}
 	copy(p, rest[:n])
 	t.pos += n
+	if t.failAt >= 0 && t.pos >= t.failAt && t.eofMode == 1 {
+		// a failing reader may hand out its last bytes together with the error (n > 0, err != nil),
+		// as io.Reader allows, instead of in a call of their own
+		if t.done != nil {
+			t.done()
+		}
+		return n, t.failErr
+	}
 	if t.pos >= len(t.data) && t.eofMode == 0 && t.failAt < 0 {
 		if t.done != nil {
 			t.done()
@@ -468,7 +476,7 @@ func runC09(w *W) {
 			if frag == 1 && len(s.data) > 4000 || bulk && frag == 3 {
 				frag = 7
 			}
-			cfg := c09Cfg{frag: frag, failAt: at, policy: sched.StreamPolicy(idx % sched.NStreamPolicies), procs: []int{2, 16, 4}[idx%3], resBuf: idx % 2, reuse: idx % 3}
+			cfg := c09Cfg{frag: frag, failAt: at, eofMode: (idx / 5) % 2, policy: sched.StreamPolicy(idx % sched.NStreamPolicies), procs: []int{2, 16, 4}[idx%3], resBuf: idx % 2, reuse: idx % 3}
 			w.c09Run(sm, s.name, s.data, s.want, cfg, w.Out.Seed*100000+uint64(idx), cs)
 		}
 	}
